@@ -393,7 +393,7 @@ def text_tree():
     # sequence with members
     i1 = add(_elem(4001, 'YEAR'), 2020)
     i2 = add(_elem(4002, 'MONTH'), 2)
-    seq = Obj('SequenceNode', {'descriptor': Obj('SequenceDescriptor', {'id': 301011, 'name': 'DATE', 'members': []}),
+    seq = Obj('SequenceNode', {'descriptor': Obj('SequenceDescriptor', {'id': 340011, 'name': 'DATE', 'members': []}),
                                'members': [Obj('ValueDataNode', {'descriptor': descs[i1], 'index': i1}), Obj('ValueDataNode', {'descriptor': descs[i2], 'index': i2})]})
     nodes.append(seq)
     # delayed replication with factor and two repetitions of one member
